@@ -12,7 +12,7 @@
 //! trusted: env: Secp256k1::verify_ecdsa is external_body whose result is Ok exactly when the uninterpreted predicate sig_valid(msg, sig, key) holds (any signature scheme); the sighash of the commitment transaction and the sighash of each second-stage HTLC transaction are opaque values (commitment_sighash / htlc_sighash_of(htlc), uninterpreted functions of the built transaction / the HTLC); PublicKey, Signature, Message opaque; CommitmentSigned skeleton {signature, htlc_signatures}; CommitmentTransaction skeleton with external_body nondust_htlcs() returning the stored list
 //! trusted: assume_specification for core::cmp::max / core::cmp::min (std definitions): present in every unit so that a change that introduces them is verified instead of being rejected by the tool
 //! trusted: closed_monitor: ChannelMonitorImpl::no_further_updates_allowed is extracted whole (three-flag skeleton of the monitor); update_monitor: the match that classifies each step of an update as pre-close and the condition of the final refusal are deep R15 slices; ChannelMonitorUpdateStep is re-declared with its eleven variant names and dummy payloads (the source patterns use `{ .. }`); applying the steps is dropped and not claimed
-//! trusted: holder_funding_claim: HolderFundingOutput::get_maybe_signed_commitment_tx: the expression that chooses the holder commitment to sign is sliced; OnchainTxHandler is a two-field skeleton with current_holder_commitment_tx / prev_holder_commitment_tx; signing itself is dropped and not claimed
+//! trusted: holder_funding_claim: HolderFundingOutput::get_maybe_signed_commitment_tx: the expression that chooses the holder commitment to sign is sliced; OnchainTxHandler is a two-field skeleton with current_holder_commitment_tx / prev_holder_commitment_tx; signing itself is dropped and not claimed; assume_specification for Option::or (std definition; environment completeness)
 use vstd::prelude::*;
 verus! {
 use vstd::std_specs::cmp::*;
@@ -335,6 +335,7 @@ impl ChannelMonitorImpl {
 // ---- which holder commitment a funding-output claim signs (package.rs HolderFundingOutput) -----------------------------
 pub mod holder_funding_claim {
 use vstd::prelude::*;
+pub assume_specification<T>[Option::<T>::or](a: Option<T>, b: Option<T>) -> (r: Option<T>) ensures r == (if a is Some { a } else { b });
 pub struct HolderCommitmentTransaction { pub id: u64 }
 pub struct OnchainTxHandler { pub holder_commitment: HolderCommitmentTransaction, pub prev_holder_commitment: Option<HolderCommitmentTransaction> }
 impl OnchainTxHandler {
